@@ -44,6 +44,8 @@ type FuncSpec struct {
 	Trusted bool // body is not verified; contract is an assumption
 	PanicIf []*Clause
 	Loops   map[int]*LoopSpec
+	OnCall  map[string][]*Clause // caller-side obligations before calls with the given label
+	EntryGhost [][2]*Clause    // ghost bindings established at function entry: loc = value
 	Sites   []string // callback role sites
 	Notes   []string
 	File    string
@@ -312,6 +314,12 @@ func (s *Spec) load(path string, prefix string) error {
 				s.Roles[fs.Name] = fs
 			} else if kw == "func" || kw == "lemma" {
 				fs.Name = rest
+				if prev, ok := s.Funcs[fs.Name]; ok {
+					// a later block for the same function adds clauses to the first one
+					cur = prev
+					curOwner = ""
+					return nil
+				}
 				s.Funcs[fs.Name] = fs
 				s.Order = append(s.Order, fs.Name)
 			} else {
@@ -549,6 +557,41 @@ func (s *Spec) load(path string, prefix string) error {
 			cur.Notes = append(cur.Notes, rest)
 		case "derive":
 			cur.Derive = rest
+		case "oncall":
+			// oncall LABEL : EXPR   (evaluated in the caller's scope right before the call)
+			i := strings.Index(rest, " : ")
+			if i < 0 {
+				return fmt.Errorf("%s:%d: bad oncall", path, ln)
+			}
+			c, err := s.mkClause(strings.TrimSpace(rest[i+3:]), path, ln)
+			if err != nil {
+				return err
+			}
+			if cur.OnCall == nil {
+				cur.OnCall = map[string][]*Clause{}
+			}
+			lbl := strings.TrimSpace(rest[:i])
+			if m := propTagRe.FindStringSubmatch(lbl); m != nil {
+				for _, p := range strings.Split(m[1], ",") {
+					c.Props = append(c.Props, strings.TrimSpace(p))
+				}
+				lbl = strings.TrimSpace(lbl[len(m[0]):])
+			}
+			cur.OnCall[lbl] = append(cur.OnCall[lbl], c)
+		case "entry-ghost":
+			i := strings.Index(rest, " = ")
+			if i < 0 {
+				return fmt.Errorf("%s:%d: bad entry-ghost", path, ln)
+			}
+			l, err := s.mkClause(strings.TrimSpace(rest[:i]), path, ln)
+			if err != nil {
+				return err
+			}
+			v, err := s.mkClause(strings.TrimSpace(rest[i+3:]), path, ln)
+			if err != nil {
+				return err
+			}
+			cur.EntryGhost = append(cur.EntryGhost, [2]*Clause{l, v})
 		case "panics":
 			if rest == "never" {
 				break
